@@ -82,6 +82,11 @@ def build_mux(loop, endpoint, my_peer, network_cls):
     add(IdentityCommunity, identity_manager=IdentityManager(":memory:"))
     add(AttestationCommunity, working_directory=":memory:")
     add(type("PlainCommunity", (Community,), {"community_id": b"\x11" * 20}))
+    # listeners that SHARE a prefix: a second overlay with the same community id, and the DHT base overlay next to the
+    # discovery variant built on it (the library ships both under one id); each must get the datagram, once
+    add(type("PlainCommunityTwin", (Community,), {"community_id": b"\x11" * 20}))
+    from ipv8.dht.community import DHTCommunity
+    add(DHTCommunity)
 
     class Recorder(EndpointListener):
         def __init__(self, ep):
